@@ -209,8 +209,14 @@ impl TapState {
             }
             if values != w.contents {
                 let detail = format!("Reset carries {:?} but the vector contains {:?}", values, w.contents);
+                // after the drop this is also what the stream ends on (C08)
+                let dropped = w.dropped;
                 drop(w);
-                cs.violate(env, &["C06", "C07"], "reset_not_current", 0, detail);
+                if dropped {
+                    cs.violate(env, &["C06", "C07", "C08"], "reset_not_current", 0, detail);
+                } else {
+                    cs.violate(env, &["C06", "C07"], "reset_not_current", 0, detail);
+                }
                 return;
             }
             raw.bidx = w.boundaries.len() - 1;
